@@ -527,6 +527,12 @@ func allDocs(tier string, seed uint64) []Doc {
 			docs[i] = genStringsDoc(r.Sub(), i) // named strings over several pages
 		case i%20 == 7:
 			docs[i] = genUnitsDoc(r.Sub(), i)
+		case i%40 == 19:
+			docs[i] = genSvgChainDoc(r.Sub(), i)
+		case i%40 == 27:
+			docs[i] = genSvgTextDoc(r.Sub(), i)
+		case i%40 == 31:
+			docs[i] = genPlainDoc(r.Sub(), i)
 		case i%40 == 11:
 			docs[i] = genHyphDoc(r.Sub(), i, rng.Pick(r, "en", "fr", "de"))
 		default:
@@ -581,7 +587,8 @@ func runDocs(tier string, seed uint64, modelPath, repo string, out *res.Result, 
 	shared := rn.fonts(1)
 	base := make([]hashes, len(docs))
 	hr := rng.New(seed ^ 0xc15)
-	var ok []int // documents that render
+	snaps := newTableSnaps() // global judge: no render writes the package-level tables
+	var ok []int             // documents that render
 	for i, d := range docs {
 		// reference: a brand-new font configuration for every 25th document (cold caches), else pooled
 		reff := rn.fonts(0)
@@ -591,6 +598,11 @@ func runDocs(tier string, seed uint64, modelPath, repo string, out *res.Result, 
 		}
 		ref, rdoc := renderTraceDoc(d.HTML, reff, repo)
 		base[i] = ref.hashes()
+		out.Hit("global-tables-checked")
+		for _, name := range changedTables(snaps) {
+			out.Add(res.Finding{Kind: "judge", Op: "judge:global-write", Input: d.HTML,
+				Reason: "rendering this document changed the package-level table " + name + " (shared by all later and concurrent renders of the process)", Key: "global:" + name, Seed: d.Seed})
+		}
 		if rdoc != nil && model != nil {
 			linksCorr(model, d, rdoc, out)
 		}
@@ -623,50 +635,20 @@ func runDocs(tier string, seed uint64, modelPath, repo string, out *res.Result, 
 		rn.compare("history", d, ref, renderTrace(d.HTML, rn.fonts(2), repo), "same process after renders of other documents, another font configuration")
 	}
 
-	// (d) concurrent, each with its own font configuration
-	cr := rng.New(seed ^ 0xd15)
-	for pos := 0; pos < len(ok); {
-		n := []int{2, 4, 4, 8}[cr.Intn(4)]
-		if tier == "thorough" {
-			n = []int{2, 8}[cr.Intn(2)]
-		}
-		if pos+n > len(ok) {
-			n = len(ok) - pos
-		}
-		group := ok[pos : pos+n]
-		pos += n
-		got := make([]Trace, n)
-		var wg sync.WaitGroup
-		for k, di := range group {
-			wg.Add(1)
-			go func(k, di int) {
-				defer wg.Done()
-				got[k] = renderTrace(docs[di].HTML, rn.fonts(4+k), repo)
-			}(k, di)
-		}
-		wg.Wait()
-		out.Hit(fmt.Sprintf("concurrent-group:%d", n))
-		for k, di := range group {
-			h := got[k].hashes()
-			if h == base[di] {
-				rn.mu.Lock()
-				out.Hit("compare:concurrent")
-				rn.mu.Unlock()
-				continue
-			}
-			// re-render sequentially to have the reference text at hand
-			ref := renderTrace(docs[di].HTML, rn.fonts(0), repo)
-			rn.compare("concurrent", docs[di], ref, got[k], fmt.Sprintf("rendered concurrently with %d other documents, own font configuration", n-1))
-		}
-	}
-
 	// (b) collect
 	fresh.wait(base)
+
+	// (d) concurrent, each with its own font configuration, in a child process
+	concurrentScenario(rn, docs, ok, base, seed, tier)
 
 	// (e) same-language hyphenation at the same time, in a child process (fatal errors observed)
 	hyphScenario(rn, seed, tier)
 	// (f) two different font configurations in this process vs one-configuration processes
 	mixedFontsScenario(rn, seed, tier)
+	// (g) plain documents after SVG <text> documents vs on their own, in fresh processes
+	historyScenario(rn, seed, tier)
+	// (h) SVG href chains, 20 renders in process + fresh processes
+	chainScenario(rn, seed, tier)
 
 	if model != nil {
 		out.Dist["model-calls"] = model.N
